@@ -52,7 +52,7 @@ func genC13(t *rapid.T) C13Case {
 	g := newWgen(partial)
 	ops := []string{"block", "block", "block", "block", "undo", "verify"}
 	if partial {
-		ops = append(ops, "prune", "ingest", "verify")
+		ops = append(ops, "prune", "ingest", "verify", "vpp")
 	}
 	n := rapid.IntRange(1, lim.maxBlocks).Draw(t, "nsteps")
 	for i := 0; i < n; i++ {
